@@ -598,6 +598,16 @@ func TestWire(t *testing.T) {
 				code int
 			}{{`[]`, tab.EmptyArray}, {` [ ] `, tab.EmptyArray}, {"\r\n[]", tab.EmptyArray}, {"\r[\r]\r", tab.EmptyArray}, {"\t[\n]", tab.EmptyArray}, {"\r\n", tab.Garbage}, {``, tab.Garbage}, {`   `, tab.Garbage}, {`{"jsonrpc":"2.0",`, tab.Garbage},
 				{`nonsense`, tab.Garbage}, {`[1,2`, tab.Garbage}, {"\x00\xff", tab.Garbage}, {`{"a":}`, tab.Garbage}, {`}{`, tab.Garbage}}
+			// a complete value followed by more bytes is not valid JSON either, whatever the bytes are
+			for _, whole := range []string{`{"jsonrpc":"2.0","id":1,"method":"h"}`, `[{"jsonrpc":"2.0","id":5,"method":"h"}]`, `[{"jsonrpc":"2.0","method":"h"}]`, `[]`,
+				`[{"jsonrpc":"2.0","id":6,"method":"h"},{"jsonrpc":"2.0","method":"h"}]`} {
+				for _, tail := range []string{`]`, `}`, `,`, ` x`, `[]`, `{}`, `null`, `1`, `"s"`, ` ]`, "\n}", `]]`, `:`} {
+					env = append(env, struct {
+						txt  string
+						code int
+					}{whole + tail, tab.Garbage})
+				}
+			}
 			for _, e := range env {
 				calls, outs := r.feed([]byte(e.txt))
 				res.Evaluations++
